@@ -38,7 +38,7 @@ CLAIMS = {
  'C04': dict(cat='proof', ref='DESIGN 5 C04',
    text="Lean theorems for every seed (both build modes): generating a pair from a seed and serialising both keys returns exactly the bytes of Algorithm 6 written with exact arithmetic modulo q (key_generation_is_algorithm_6: "
         "H(xi||k||l) split, ExpandS, ExpandA, t = NTT^-1(A_hat.NTT(s1)) + s2 mod q by exact butterflies, Power2Round, pkEncode, tr = H(pk), skEncode), as values of the model's result type (so it never panics); the RNG-driven key generation "
-        "is the seeded one on the 32 bytes drawn (or Err) and ignores the rest of the generator. The Lean specification reuses the model's sampler / encoder transcriptions; it and the crate are compared on every run with a Python "
+        "is the seeded one on the 32 bytes drawn (or Err) and ignores the rest of the generator. It and the crate are compared on every run with a Python "
         "transcription of Algorithm 6 through both entry points (byte level) and at struct level, including seeds that hit rare sampler events (corpus).",
    note=TB + "checks/ref/mldsa.py (Algorithm 6) is the oracle for the unproved part.",
    tech="Lean 4 proof that keygen + serialisation equals Algorithm 6 with exact arithmetic mod q (NTT pipeline semantics, key round trips) + RNG wrapper theorems + byte-exact differential execution against a FIPS 204 reference"),
@@ -65,7 +65,7 @@ CLAIMS = {
         "(kernel evaluation). The four rejecting conditions the property names are separate theorems (accept_implies, malformed_encoding_rejected, large_norm_rejected, long_context_rejected). The Lean specification is short and is itself "
         "compared on every run (through the model) with a Python transcription of Algorithms 3, 5, 8 and with the crate on constructed boundary cases: forgeries under a t1 = 0 key with the norm one below / at the bound, hint weight "
         "0..omega, every class of hint-section malformation, one-bit changes per section, long contexts.",
-   note=TB + "the specification verifySpec (Lemmas/VerifySpec) reuses the model's sigDecode / SampleInBall / ExpandA / w1Encode transcriptions (they are tied to the crate by correspondence; canonicity of the decoder is C08); checks/ref/mldsa.py (Algorithms 3, 5, 8) is the independent execution oracle.",
+   note=TB + "Spec/* (the literal transcription) is trusted to read as the standard and is compared on every run, through the crate, with the independent Python one; checks/ref/mldsa.py (Algorithms 3, 5, 8) is the independent execution oracle.",
    tech="Lean 4 proof that verify_internal equals Algorithm 8 with exact arithmetic mod q (NTT pipeline semantics) + rejecting-condition theorems + boundary cases judged by a FIPS 204 reference"),
  'C05': dict(cat='proof', ref='DESIGN 5 C05',
    text="Lean theorems (everything that is not a statement about SHAKE256 itself) + exhaustive flip runs. The property as stated is false of any hash function with collisions, so the theorems say what a second accepted tuple would be, for every oracle, key byte string and input, on the model of verify / hash_verify / verify_internal (through C02, verify_internal = Algorithm 8): "
@@ -144,6 +144,19 @@ CLAIMS = {
 ORDER = ['C%02d' % i for i in range(1, 19)]
 
 
+# whole-function theorems against Spec/* (a transcription of FIPS 204 that mentions nothing of the crate); appended to the claim text
+LITERAL = {
+ 'C02': "Literal specification (Props/C02c): verification_is_fips_204_algorithm_8_as_written - from the public-key bytes and the signature bytes, expand_public + verify_internal return exactly the Boolean of Spec.verifyInternal "
+        "(Algorithms 8, 21, 23, 27, 28, 29, 30, 32, 35-42 and Table 1 transcribed on explicit bit strings and XOF streams), for every input, both build modes.",
+ 'C03': "Literal specification (Props/C03c, C03d): sign_internal_is_Sign_internal_as_written - for every accepted private-key byte string, message, context, pre-hash input and rnd, sign_internal on the struct expand_private built "
+        "returns exactly the signature bytes Spec.signInternal (Algorithm 7 line by line, on Algorithms 25, 32, 34, 41, 42, 36-39, 29, 28, 26, 20) computes from the key bytes, within the 16-bit counter's range; expand_mask_is_ExpandMask "
+        "(uses that a shorter SHAKE256 request is a prefix of a longer one).",
+ 'C04': "Literal specification (Props/C04c): keygen_is_algorithm_6_as_written - for every seed, key generation followed by serialisation returns the byte strings of Spec.keyGenInternal "
+        "(Algorithm 6 on Algorithms 30-33, 41, 42, 35, 22, 24, 16, 17 as transcribed), so the Lean specification no longer shares sampler or encoder code with the model.",
+ 'C08': "Literal specification (Props/C08c): bit_pack / bit_unpack / simple variants are Algorithms 16-19 on explicit bit strings, hint_bit_pack / hint_bit_unpack are Algorithms 20 / 21, sig_encode / sig_decode are Algorithms 26 / 27, for all inputs.",
+ 'C10': "Literal specification (Props/C10c): sk_decode returns Ok iff every coefficient of Algorithm 25's s1, s2 (Spec.skDecode on the bytes) lies in [-eta, eta], and then returns exactly Algorithm 25's tuple.",
+}
+
 def main():
     props = [json.loads(l) for l in open(os.path.join(VERIF, 'properties.jsonl'))]
     checks = []
@@ -153,6 +166,9 @@ def main():
     for pid in ORDER:
         if pid in CLAIMS:
             c = dict(CLAIMS[pid])
+            if pid in LITERAL:
+                c['text'] += ' ' + LITERAL[pid]
+                c['tech'] += ' + whole-function equality with a literal Lean transcription of the FIPS 204 algorithms (Spec/*)'
             if pid in core.TIES:
                 mods = ', '.join(core.TIES[pid])
                 c['text'] += (" Source tie (Lemmas/SrcTie: " + mods + "): every per-coefficient comprehension, butterfly, comparison and index expression of the hand-modelled functions this property runs through "
